@@ -38,6 +38,7 @@ func init() {
 		"vParam":     shimParam,
 		"vNow":       func(x *Exec, t *Thread, a []Value, c *callCtx) (Value, nativeStatus) { return x.mkTime(x.readClock()), nDone },
 		"vToken":     shimToken,
+		"vNative":    func(x *Exec, t *Thread, a []Value, c *callCtx) (Value, nativeStatus) { return x.F.False, nDone },
 		"vWaitOthers": shimWaitOthers,
 		"vSettle":     shimSettle,
 		"vConcrete":  shimConcrete,
